@@ -16,7 +16,9 @@ ASSUMPTIONS = ['an unstopped run of the same model gives the series the stop con
 EXPLANATION = 'exhaustive thresholds at and between all samples, all operators and sensors; differential oracle against the unstopped run'
 
 OPS = {'>': operator.gt, '>=': operator.ge, '==': operator.eq, '<': operator.lt, '<=': operator.le}
-RUNS = [([0.125, 'sec'], [2.0, 'sec']), ([0.5, 'sec'], [3000.0, 'ms'])]
+# the third run asks for a duration that is NOT a multiple of dt (T/dt = 10.4 -> round() = 10 steps): a stopped run must still
+# record nothing after the stopping instant (seed C16-10: a shorter 'closing step' appended after the step loop, also after a break)
+RUNS = [([0.125, 'sec'], [2.0, 'sec']), ([0.5, 'sec'], [3000.0, 'ms']), ([0.125, 'sec'], [1.3, 'sec'])]
 
 
 def bounds(tier):
